@@ -784,6 +784,12 @@ impl Log {
 	}
 
 	pub fn clear_replay_logs(&self) {
+		#[cfg(pdb_verif)]
+		crate::verif::ev(
+			crate::verif::EV_CLEAR_REPLAY_LOGS,
+			self.reading.read().is_some() as u64,
+			self.replay_queue.read().len() as u64,
+		);
 		if let Some(reading) = self.reading.write().take() {
 			self.cleanup_queue.write().push_back((reading.id, reading.file.into_inner()));
 		}
@@ -1051,5 +1057,104 @@ impl Log {
 			self.drop_log(reading.id)?;
 		}
 		Ok(())
+	}
+}
+
+#[cfg(pdb_verif)]
+impl Log {
+	pub(crate) fn verif_digest(&self, h: &mut crate::verif::Hasher, d: &mut crate::verif::Digest) {
+		h.tag("log");
+		{
+			let o = self.overlays.read();
+			for (i, t) in o.index.iter().enumerate() {
+				if t.map.is_empty() {
+					continue
+				}
+				d.log_overlay_index += t.map.len();
+				h.u64(i as u64);
+				let mut keys: Vec<_> = t.map.keys().cloned().collect();
+				keys.sort();
+				for k in keys {
+					let (id, mask, chunk) = &t.map[&k];
+					h.u64(k);
+					h.u64(*id);
+					h.u64(*mask);
+					h.bytes(&chunk.0);
+				}
+			}
+			for (i, t) in o.value.iter().enumerate() {
+				if t.map.is_empty() {
+					continue
+				}
+				d.log_overlay_value += t.map.len();
+				h.u64(i as u64);
+				let mut keys: Vec<_> = t.map.keys().cloned().collect();
+				keys.sort();
+				for k in keys {
+					let (id, data) = &t.map[&k];
+					h.u64(k);
+					h.u64(*id);
+					h.bytes(data);
+				}
+			}
+			for (i, t) in o.ref_count.iter().enumerate() {
+				if t.map.is_empty() {
+					continue
+				}
+				d.log_overlay_ref_count += t.map.len();
+				h.u64(i as u64);
+				let mut keys: Vec<_> = t.map.keys().cloned().collect();
+				keys.sort();
+				for k in keys {
+					let (id, mask, chunk) = &t.map[&k];
+					h.u64(k);
+					h.u64(*id);
+					h.u64(*mask);
+					h.bytes(&chunk.0);
+				}
+			}
+			for r in o.last_record_ids.iter() {
+				h.u64(*r);
+			}
+		}
+		{
+			let a = self.appending.read();
+			d.appending = a.is_some();
+			if let Some(a) = a.as_ref() {
+				d.appending_size = a.size;
+				h.u64(a.id as u64);
+				h.u64(a.size);
+			}
+		}
+		{
+			use std::io::Seek;
+			let mut r = self.reading.write();
+			d.reading = r.is_some();
+			if let Some(r) = r.as_mut() {
+				h.u64(r.id as u64);
+				h.u64(r.file.stream_position().unwrap_or(u64::MAX));
+			}
+		}
+		let ids = |q: &VecDeque<(u32, std::fs::File)>, h: &mut crate::verif::Hasher| {
+			h.u64(q.len() as u64);
+			for (id, _) in q.iter() {
+				h.u64(*id as u64);
+			}
+		};
+		d.read_queue = self.read_queue.read().len();
+		d.cleanup_queue = self.cleanup_queue.read().len();
+		d.log_pool = self.log_pool.read().len();
+		d.replay_queue = self.replay_queue.read().len();
+		ids(&self.read_queue.read(), h);
+		ids(&self.cleanup_queue.read(), h);
+		ids(&self.log_pool.read(), h);
+		for (id, rec, _) in self.replay_queue.read().iter() {
+			h.u64(*id as u64);
+			h.u64(*rec);
+		}
+		d.next_record_id = self.next_record_id.load(Ordering::SeqCst);
+		h.u64(d.next_record_id);
+		h.u64(self.next_log_id.load(Ordering::SeqCst) as u64);
+		h.u64(self.dirty.load(Ordering::SeqCst) as u64);
 	}
 }
